@@ -211,7 +211,7 @@ pct_pair!(uri_host_pair, uri::Host, mk_uri_host, "uri::Host");
 pct_pair!(iri_segment_pair, iri::Segment, mk_iri_segment, "iri::Segment");
 pct_pair!(iri_query_pair, iri::Query, mk_iri_query, "iri::Query");
 
-// @h prop=C07 tier=thorough kind=check timeout=2400 mem=16 bound="all pairs of uri::Segment values <= 4 bytes each (escapes of any octet incl. %FF)" encodes="PartialEq/Ord/Hash for uri::Segment;utils::{pct_eq,pct_cmp,pct_hash};pct_str::Bytes::next"
+// @h prop=C07 tier=quick kind=check timeout=2400 mem=10 bound="all pairs of uri::Segment values <= 4 bytes each (escapes of any octet incl. %FF)" encodes="PartialEq/Ord/Hash for uri::Segment;utils::{pct_eq,pct_cmp,pct_hash};pct_str::Bytes::next"
 #[cfg_attr(kani, kani::proof)]
 #[cfg_attr(kani, kani::unwind(10))]
 pub fn c07_uri_segment_pair_n4() {
@@ -225,7 +225,7 @@ pub fn c07_uri_segment_pair_n6() {
     uri_segment_pair::<6, EQ>()
 }
 
-// @h prop=C07 tier=thorough kind=check timeout=2400 mem=16 bound="all pairs of uri::Host values <= 4 bytes each" encodes="PartialEq/Ord/Hash for uri::Host"
+// @h prop=C07 tier=quick kind=check timeout=2400 mem=10 bound="all pairs of uri::Host values <= 4 bytes each" encodes="PartialEq/Ord/Hash for uri::Host"
 #[cfg_attr(kani, kani::proof)]
 #[cfg_attr(kani, kani::unwind(10))]
 pub fn c07_uri_host_pair_n4() {
@@ -253,7 +253,7 @@ pub fn c07_uri_userinfo_pair_n5() {
     uri_userinfo_pair::<5, EQ>()
 }
 
-// @h prop=C07 tier=thorough kind=check timeout=2400 mem=16 bound="all pairs of iri::Segment values <= 4 bytes each (literal non-ASCII vs escapes: e-acute vs %C3%A9 needs 6, see n6)" encodes="PartialEq/Ord/Hash for iri::Segment"
+// @h prop=C07 tier=quick kind=check timeout=2400 mem=10 bound="all pairs of iri::Segment values <= 4 bytes each (literal non-ASCII vs escapes: e-acute vs %C3%A9 needs 6, see n6)" encodes="PartialEq/Ord/Hash for iri::Segment"
 #[cfg_attr(kani, kani::proof)]
 #[cfg_attr(kani, kani::unwind(10))]
 pub fn c07_iri_segment_pair_n4() {
@@ -603,4 +603,32 @@ pub fn c08_uri_segment_ord_n3() {
 #[cfg_attr(kani, kani::unwind(10))]
 pub fn c08_uri_segment_hash_n3() {
     uri_segment_pair::<3, HASH>()
+}
+
+// @h prop=C08 tier=quick kind=check timeout=2400 mem=10 bound="all pairs of uri::Segment values <= 4 bytes each: ordering = order of the decoded octets" encodes="Ord/PartialOrd for uri::Segment;utils::pct_cmp"
+#[cfg_attr(kani, kani::proof)]
+#[cfg_attr(kani, kani::unwind(10))]
+pub fn c08_uri_segment_ord_n4() {
+    uri_segment_pair::<4, ORD>()
+}
+
+// @h prop=C08 tier=quick kind=check timeout=2400 mem=10 bound="all pairs of uri::Segment values <= 4 bytes each: equal values hash identically" encodes="Hash for uri::Segment;utils::pct_hash"
+#[cfg_attr(kani, kani::proof)]
+#[cfg_attr(kani, kani::unwind(10))]
+pub fn c08_uri_segment_hash_n4() {
+    uri_segment_pair::<4, HASH>()
+}
+
+// @h prop=C08 tier=quick kind=check timeout=2400 mem=10 bound="all pairs of uri::Host values <= 3 bytes each: ordering and hashing" encodes="Ord/Hash for uri::Host"
+#[cfg_attr(kani, kani::proof)]
+#[cfg_attr(kani, kani::unwind(10))]
+pub fn c08_uri_host_ord_n3() {
+    uri_host_pair::<3, ORD>()
+}
+
+// @h prop=C08 tier=quick kind=check timeout=2400 mem=10 bound="all pairs of iri::Segment values <= 3 bytes each: equal values hash identically" encodes="Hash for iri::Segment"
+#[cfg_attr(kani, kani::proof)]
+#[cfg_attr(kani, kani::unwind(10))]
+pub fn c08_iri_segment_hash_n3() {
+    iri_segment_pair::<3, HASH>()
 }
